@@ -392,7 +392,9 @@ class ReaderMonitor(object):
                 if ent is not None:
                     th, al, lb = ent
                     f = _BIN[name]
-                    me.shadow[out] = ((lambda th=th, f=f, arg=arg: f(th(), arg)), al, lb)
+                    nt = (lambda th=th, f=f, arg=arg: f(th(), arg))
+                    nt.parent = th
+                    me.shadow[out] = (nt, al, lb)
                     ctx.mon('M1.derived')
                 return out
             return dunder
@@ -404,7 +406,9 @@ class ReaderMonitor(object):
                 if ent is not None:
                     th, al, lb = ent
                     f = _UN[name]
-                    me.shadow[out] = ((lambda th=th, f=f: f(th())), al, lb)
+                    nt = (lambda th=th, f=f: f(th()))
+                    nt.parent = th
+                    me.shadow[out] = (nt, al, lb)
                     ctx.mon('M1.derived')
                 return out
             return dunder
@@ -447,7 +451,9 @@ class ReaderMonitor(object):
         from phylib.io.traces import BaseEphysReader
         if cols is not None and isinstance(rows, slice) and rows == slice(None, None, None):
             if isinstance(out, BaseEphysReader):
-                self.shadow[out] = ((lambda th=th, cols=cols: th()[:, cols]), al, lb)
+                nt = (lambda th=th, cols=cols: th()[:, cols])
+                nt.parent = th
+                self.shadow[out] = (nt, al, lb)
                 ctx.mon('M1.derived')
             else:
                 ctx.violation('reader_colsel_not_reader', {'item': item},
@@ -478,7 +484,20 @@ class ReaderMonitor(object):
         if cols is not None:
             exp = exp[:, cols]
         ctx.mon('M1.checked')
-        d = same(out, exp, rtol=ulp_tol(exp) if lb == 'ops' or True else 0)
+        d = same(out, exp, rtol=ulp_tol(exp))
+        if d is not None:
+            # a step of the expression may have been computed in a coarser floating type than the final result
+            # (float32 pow, then + np.int64): judge to a few units of the coarsest precision met on the way
+            tol, t_ = ulp_tol(exp), th
+            with np.errstate(all='ignore'):
+                while getattr(t_, 'parent', None) is not None:
+                    t_ = t_.parent
+                    try:
+                        tol = max(tol, ulp_tol(t_()))
+                    except Exception:
+                        break
+            if tol > ulp_tol(exp):
+                d = same(out, exp, rtol=tol)
         if d is not None:
             ctx.violation('reader_read_mismatch',
                           {'label': lb, 'item': item, 'reader_shape': list(A.shape),
